@@ -42,6 +42,7 @@ def families(tier):
         # positions with four and five digits (two or three crossing stems far apart) and many small groups of crossing stems (up to 14 stems in knots)
         ("long-chains", lambda: (c for c in __import__("mc.props.c02", fromlist=["x"])._long_chains(tier) if c["long"] <= 12000), 1),
         ("many-groups", lambda: __import__("mc.props.c16", fromlist=["x"])._many_groups(), 1),
+        ("long-stems", lambda: __import__("mc.props.c02", fromlist=["x"])._long_stems(tier), 1),
     ]
 
 
